@@ -279,9 +279,9 @@ def oracle(line, impl_line):
         writeable = any(ev[0] == 5 and ev[2] == 1 for ev, _ in iv["ops"]) or len(ROLE_STREAMS[role]) <= 1 or True
         prev = recs[max(0, e - 2):e]
         if [(r[0], r[1], r[2]) for r in prev] != [(STDOUT, rid, []), (STDERR, rid, [])]:
-            # requests that never became writeable close without stream terminators
-            if not (role == FILTER and not any(ev[0] == 5 and ev[2] == 1 for ev, _ in iv["ops"])):
-                return "EndRequest of request %d is not preceded by the empty Stdout and Stderr records" % (j + 1)
+            # Request::close makes every request writeable first (it waits for the final input stream), so on compliant,
+            # abort-free traffic the two stream terminators are always owed
+            return "EndRequest of request %d is not preceded by the empty Stdout and Stderr records" % (j + 1)
         # handler output bytes, in order, as records of the right stream and id
         lo = ends[served - 2] + 1 if served >= 2 else 0
         for t in (STDOUT, STDERR):
